@@ -145,7 +145,13 @@ func ctlCase(tier string, idx int) (progCase, bool) {
 			return []hs.Stmt{hs.ES(&hs.If{Cond: hs.Bin("!=", hs.V("G"), hs.I(0)), Then: hs.Blk(nil, hs.Println(hs.S("then"))),
 				Else: hs.Blk(nil, wrap([]hs.Stmt{hs.Println(hs.S(a))}, hs.Println(hs.S(b)))...)})}
 		case "match":
-			return []hs.Stmt{hs.ES(&hs.Match{X: hs.V("G"), Arms: []hs.MatchArm{
+			// first a match whose FIRST arm diverges but is not the one taken: the match completes
+			// through its default arm and the code behind it runs
+			untaken := hs.ES(&hs.Match{X: hs.Bin("+", hs.V("G"), hs.I(5)), Arms: []hs.MatchArm{
+				{Lits: []hs.Expr{hs.I(0)}, Body: &hs.BlockExpr{B: hs.Blk(nil, hs.ES(hs.CallN("throw", hs.S("never"))))}},
+				{Lits: nil, Body: &hs.BlockExpr{B: hs.Blk(nil, hs.Println(sv("skip%d", i)))}},
+			}})
+			return []hs.Stmt{untaken, hs.Println(sv("between%d", i)), hs.ES(&hs.Match{X: hs.V("G"), Arms: []hs.MatchArm{
 				{Lits: []hs.Expr{hs.I(0)}, Body: &hs.BlockExpr{B: hs.Blk(nil, wrap([]hs.Stmt{hs.Println(hs.S(a))}, hs.Println(hs.S(b)))...)}},
 				{Lits: nil, Body: &hs.BlockExpr{B: hs.Blk(nil, hs.Println(hs.S("other")))}},
 			}})}
